@@ -82,6 +82,7 @@ def run(F, R, ctx):
     union_rule(F, R)
     cross_side_rule(F, R)
     nested_arm_rule(F, R)
+    unordered_hash_rule(F, R)
     visited_rules(F, R)
     for v in sorted(hc):
         R.inst("C11.h", "hash arm %s is implemented" % v, hc[v][0] != "panic",
@@ -287,3 +288,43 @@ def _arm_of(fn, block, pair_arm, F):
             if e in dom[block]:
                 return v
     return "?"
+
+
+def unordered_hash_rule(F, R):
+    R.rule("C11.o", "hashing an unordered collection does not depend on its iteration order: in the Hash impl of every "
+                    "SteelVal payload type backed by a hash map / hash set (each instance has its own RandomState, so two "
+                    "equal collections iterate in different orders), no call that receives the caller's hasher lies on a "
+                    "loop — elements are hashed separately and combined commutatively, the caller's hasher is fed once")
+    n = 0
+    for a_name, a in F.adts.items():
+        if not a_name.startswith("steel::rvals::"):
+            continue
+        backs = [f for v in a["variants"] for f in v["fields"] if re.search(r"Generic(HashMap|HashSet)|\bHash(Map|Set)<", f["ty"])]
+        if not backs:
+            continue
+        hs = F.find(r"^steel::rvals::\{impl Hash for %s\}::hash$" % re.escape(a["short"]))
+        if not hs:
+            continue
+        fn = hs[0]
+        n += 1
+        ts = lib.tainted_locals(fn, ["_2"])
+        bad = None
+        for i, b in fn.calls():
+            if i not in fn.reachable_from(fn.succ(i)):
+                continue
+            if any(x in ts for a_ in b["args"] for x in lib.TOK.findall(a_)) and not re.search(
+                    r"Iterator>::next$|::into_iter$", b["callee"]):
+                bad = b
+                break
+        R.inst("C11.o", "<%s as Hash>::hash feeds the caller's hasher outside the element loop" % a["short"], bad is None,
+               "<%s as Hash>::hash passes the caller's hasher to %s inside its loop over the entries (line %s): the result "
+               "depends on the iteration order, which differs between two equal collections (separate RandomState per "
+               "instance), so an equal? map/set used as a key or set member is not found — "
+               "(hash-contains? (hash (hash 'a 1 'b 2) #t) (hash 'a 1 'b 2)) is #false" % (
+                   a["short"], lib.short_name(bad["callee"]) if bad else "", bad["line"] if bad else ""),
+               fn.loc(), sample=True)
+    if n == 0 and "imbl" not in (F.meta.get("features") or []):
+        R.note("C11.o: without the `imbl` feature the hash collections are the im/im-rc crates' types and their Hash impl is "
+               "the dependency's (not analysed).")
+        return
+    R.floor("C11.o", "hash-backed payload types with a Hash impl", n, 2)
